@@ -355,4 +355,10 @@ def encodeS (is : List Inter) (kw : List (Char × NsVal)) : Out :=
     let vs := termsS ratMul 1 (featsDense kw) ts
     .dense (if const ≠ 0 then const :: vs else vs)
 
+/-- a history of `encode` calls on one encoder object: the object keeps nothing between calls
+(`self.n`, `self.times` are counters that no result depends on), so the results are the
+call-by-call results -/
+def encodeHistory (cfg : Cfg) (is : List Inter) (calls : List (List (Char × NsVal))) : List (Except Err Out) :=
+  calls.map (encode cfg is)
+
 end Coba.C20
